@@ -32,6 +32,11 @@ pub struct Program {
     /// rules of each family present before the threads start
     pub preload: Vec<AnySpec>,
     pub tasks: Vec<Vec<MOp>>,
+    /// sequential prelude: failing entries on both resources, then the clock moves past the retry
+    /// timeout, so that the racing entries find Open breakers ready to be probed (transitions and
+    /// listener callbacks happen inside the race)
+    #[serde(default)]
+    pub trip: bool,
     /// a StateChangeListener whose callbacks call read-only circuit-breaker manager functions
     pub listener: bool,
     /// custom generators (flow / hotspot / breaker) whose callbacks call read-only manager functions
@@ -178,7 +183,8 @@ impl Prop for C15 {
             }
         }
         let epoch_ns = slot_ns - slot_ns % (10 * SEC) + rng.range(100, 300) * MS;
-        json!({"epoch_ns": epoch_ns, "schedule": gen_schedule(rng, 250), "program": Program { preload, tasks, listener, custom_generators }})
+        let trip = (f1 == 1 || f2 == 1) && rng.chance(2, 3);
+        json!({"epoch_ns": epoch_ns, "schedule": gen_schedule(rng, 250), "program": Program { preload, tasks, trip, listener, custom_generators }})
     }
 
     fn execute(&self, scenario: &Value, cov: &mut Cov) -> RunResult {
@@ -186,6 +192,9 @@ impl Prop for C15 {
         let prog: Program = serde_json::from_value(scenario["program"].clone()).expect("program");
         if prog.listener {
             cov.hit("with_callback_listener");
+        }
+        if prog.trip {
+            cov.hit("with_tripped_breakers_ready_to_probe");
         }
         if prog.custom_generators {
             cov.hit("with_callback_generators");
@@ -240,6 +249,11 @@ impl Prop for C15 {
         if prog.listener {
             let mut p = prog.clone();
             p.listener = false;
+            push(p);
+        }
+        if prog.trip {
+            let mut p = prog.clone();
+            p.trip = false;
             push(p);
         }
         if prog.custom_generators {
@@ -367,6 +381,14 @@ fn body(epoch_ns: u64, prog: &Program, obs: Obs) {
         if !rules.is_empty() {
             fam::load_all(f, &rules);
         }
+    }
+    if prog.trip {
+        for r in 0..2 {
+            for _ in 0..3 {
+                apply(&MOp::Entry { res: res_name(r), err: true, ms: 20 });
+            }
+        }
+        vc::advance(1_500 * MS);
     }
     let mut handles = vec![];
     for ops in prog.tasks.iter() {
